@@ -107,6 +107,10 @@ func c15Writer(w *World, r *Recorder, sf *types.Named) {
 			switch v.Kind {
 			case KSeq:
 				bytes = v.Elems
+			case KSliceOf:
+				for k := 0; k < v.N; k++ {
+					bytes = append(bytes, e.load(st, locJoin(ensureSel(v.Loc), fmt.Sprintf("[%d]", k)), types.Typ[types.Uint8]))
+				}
 			default:
 				bytes = []AV{v}
 			}
@@ -167,7 +171,9 @@ func c15Writer(w *World, r *Recorder, sf *types.Named) {
 			return false
 		}
 		in := *a.Inner
-		return (in.Kind == KLin && (in.Term == nTerm || strings.Contains(in.Term, nTerm)) && in.K == 0)
+		// the count itself, or its conversion to the width written (a masked or
+		// otherwise derived count is a different number)
+		return in.Kind == KLin && in.K == 0 && (in.Term == nTerm || in.Term == fmt.Sprintf("conv(uint%d,%s)", bits, nTerm))
 	}
 	wants := []want{
 		{0, 0, "n=0 → a0", func(c hdrCell) bool { return len(c.bytes) == 1 && c.bytes[0].Kind == KInt && c.bytes[0].K == 0xa0 }},
@@ -804,7 +810,7 @@ func omitDefinitionEnv(v ssa.Value, env map[*ssa.Parameter]ssa.Value, depth int)
 	switch x := v.(type) {
 	case *ssa.Call:
 		if strings.HasPrefix(calleeName(&x.Call), "slices.Contains[") && len(x.Call.Args) == 2 {
-			if optionsAfterKey(resolveEnv(x.Call.Args[0], env)) && isOmitemptyConst(x.Call.Args[1], env) {
+			if optionsAfterKeyEnv(x.Call.Args[0], env) && isOmitemptyConst(x.Call.Args[1], env) {
 				return true, ""
 			}
 			return false, "the flag is not slices.Contains(options-after-the-key, \"omitempty\")"
@@ -923,6 +929,10 @@ func omitFieldOfHelper(c *ssa.Call, f int, depth int) (bool, string) {
 					}
 					k, ok := st.Val.(*ssa.Const)
 					if !ok || k.Value == nil {
+						if ok2, _ := omitDefinitionEnv(st.Val, bindEnv(c, nil), depth+1); ok2 {
+							nTrue++
+							continue
+						}
 						return false, "in " + h.Name() + ": non-constant definition of the flag"
 					}
 					if !constant.BoolVal(k.Value) {
@@ -977,7 +987,7 @@ func guardedByOmitemptyOption(fn *ssa.Function, blk *ssa.BasicBlock, env map[*ss
 // first comma.
 func isOptionAfterKey(v ssa.Value, env map[*ssa.Parameter]ssa.Value) bool {
 	if ld, isLd := v.(*ssa.UnOp); isLd {
-		if ia, isIA := ld.X.(*ssa.IndexAddr); isIA && optionsAfterKey(resolveEnv(ia.X, env)) {
+		if ia, isIA := ld.X.(*ssa.IndexAddr); isIA && optionsAfterKeyEnv(ia.X, env) {
 			return true
 		}
 	}
@@ -1103,6 +1113,9 @@ func classifySkip(w *World, b *ssa.BasicBlock, ifi *ssa.If, succ int, omitPhi ss
 		cn := calleeName(&x.Call)
 		if f := x.Call.StaticCallee(); f != nil && isEmbedCollector(f) && succ == 0 {
 			return "embedded"
+		}
+		if f := x.Call.StaticCallee(); f != nil && succ == 0 && isDashPredicate(f) {
+			return "dash"
 		}
 		if cn == "(reflect.Value).IsZero" && succ == 0 && !populate {
 			// must be under isOmitEmpty == true
@@ -1337,8 +1350,10 @@ func omitUnderAbsence(b *ssa.BasicBlock) string {
 }
 
 // optionsAfterKey: v is parts[1:] of a strings.Split(tag, ",") result.
-func optionsAfterKey(v ssa.Value) bool {
-	sl, ok := v.(*ssa.Slice)
+func optionsAfterKey(v ssa.Value) bool { return optionsAfterKeyEnv(v, nil) }
+
+func optionsAfterKeyEnv(v ssa.Value, env map[*ssa.Parameter]ssa.Value) bool {
+	sl, ok := resolveEnv(v, env).(*ssa.Slice)
 	if !ok || sl.High != nil {
 		return false
 	}
@@ -1349,7 +1364,7 @@ func optionsAfterKey(v ssa.Value) bool {
 	if n, _ := constant.Int64Val(lo.Value); n != 1 {
 		return false
 	}
-	call, ok := sl.X.(*ssa.Call)
+	call, ok := resolveEnv(sl.X, env).(*ssa.Call)
 	return ok && calleeName(&call.Call) == "strings.Split"
 }
 
@@ -1521,4 +1536,31 @@ func c15Collector(w *World, r *Recorder) {
 	if n == 0 {
 		r.Undecide("C15-H8", "embed-collector", "-", "no embed collector found")
 	}
+}
+
+// isDashPredicate: an in-repo function whose every return is `<something> == "-"`.
+func isDashPredicate(f *ssa.Function) bool {
+	if f.Blocks == nil || f.Signature.Results().Len() != 1 {
+		return false
+	}
+	n := 0
+	for _, b := range f.Blocks {
+		ret, ok := b.Instrs[len(b.Instrs)-1].(*ssa.Return)
+		if !ok {
+			continue
+		}
+		n++
+		bo, ok := ret.Results[0].(*ssa.BinOp)
+		if !ok || bo.Op != token.EQL {
+			return false
+		}
+		isDash := func(v ssa.Value) bool {
+			k, ok := v.(*ssa.Const)
+			return ok && k.Value != nil && k.Value.Kind() == constant.String && constStringVal(k) == "-"
+		}
+		if !isDash(bo.X) && !isDash(bo.Y) {
+			return false
+		}
+	}
+	return n > 0
 }
